@@ -36,19 +36,18 @@ AsCoded(e, i) ==
            LET x == TV(i.lt, J(e.l)) IN MatchesAsCoded(AsCodedConv(x, i.rt), i.tag, e.out, J(e.res), CConv(x, i.rt))
       [] OTHER -> FALSE
 
-Verdict(e) ==
-    LET i == Insts[e.i]
-        v == Verdict0(e, i)
-    IN [d |-> v.d, nt |-> v.nt, cls |-> v.cls,
-        ac |-> IF v.d \in {"ok", "skip"} THEN "-" ELSE IF v.d = "bad_event" THEN "novel"
-               ELSE IF AsCoded(e, i) THEN "as_coded" ELSE "novel"]
-
+\* The verdict of event k is kept in TLC register k (re-evaluating a step is idempotent); all
+\* verdicts are written once, by the postcondition, when the whole trace has been consumed.
+\* (\E over singleton sets binds each intermediate result to a value: TLC evaluates it once.)
 Init == l = 1
 Step == /\ l <= Len(Tr)
-        /\ LET v == Verdict(Tr[l])
-           IN CSVWrite("%1$s;%2$s;%3$s;%4$s;%5$s", <<l, v.d, v.nt, v.ac, v.cls>>, VerdictFile)
+        /\ \E e \in {Tr[l]} : \E i \in {Insts[e.i]} : \E v \in {Verdict0(e, i)} :
+              \E ac \in {IF v.d \in {"ok", "skip"} THEN "-" ELSE IF v.d = "bad_event" THEN "novel"
+                          ELSE IF AsCoded(e, i) THEN "as_coded" ELSE "novel"} :
+                 TLCSet(l, <<v.d, v.nt, ac, IF v.d \in {"ok", "skip"} THEN <<>> ELSE v.cls>>)
         /\ l' = l + 1
 Spec == Init /\ [][Step]_l
 
-AllConsumed == TLCGet("stats").diameter = Len(Tr) + 1
+AllConsumed == /\ TLCGet("stats").diameter = Len(Tr) + 1
+               /\ ndJsonSerialize(VerdictFile, [k \in 1..Len(Tr) |-> TLCGet(k)])
 =============================================================================
